@@ -55,6 +55,17 @@ CLAIMED["C14"] = {
     "ref": "DESIGN.md section 5 (C14)",
 }
 
+CLAIMED["C12"] = {
+    "text": "Proof: Process.cmdline (every cmdline content: NUL separated with empty arguments preserved, space "
+            "separated titles, ZombieProcess only for a zombie), readlink (NUL garbage and stale ' (deleted)' suffix), "
+            "exe/cwd through _readlink under the procfs fault model ('' only when the kernel withheld the link), and "
+            "the front-end name() extension rule, each for all inputs. parse_environ_block is covered by an exhaustive "
+            "small-scope enumeration against a reference parser (labelled bounded).",
+    "note": "str.split(sep) is an uninterpreted function shared by code and spec; os.path.basename uninterpreted; "
+            "procfs environment model; the front-end exe() fallback (guess_it) is not under contract yet.",
+    "ref": "DESIGN.md section 5 (C12)",
+}
+
 NOT_YET = "check not built yet (work in progress, see DESIGN.md section 7)"
 NA = {}
 
